@@ -5,3 +5,4 @@ CONSTANTS
   UnderRepl = TRUE
   WatchSendUnderLock = FALSE
   InlineNodeChanges = FALSE
+  AnswerEveryUpd = TRUE
